@@ -417,6 +417,13 @@ pub fn long_suite(out: &mut Out, seed: u64, thorough: bool) {
 					}
 					k += every;
 				}
+				// and a spread of positions inside the small-integer regime 5 (ties at the moment of a rescan)
+				for j in 0..16usize {
+					let p = 5 * seg + 50 + j * (seg.saturating_sub(100)) / 16;
+					if p < total {
+						ps.push(p);
+					}
+				}
 				ps.sort();
 				ps.dedup();
 			}
@@ -614,7 +621,7 @@ pub fn suite_w(out: &mut Out, seed: u64, thorough: bool, filter: &[String], wide
 	} else {
 		gen::quick_lengths(&mut rng, max)
 	};
-	let classes_per = if thorough { 3 } else { 2 };
+	let classes_per = if thorough { 4 } else { 3 };
 
 	// single-value methods
 	for name in SCALAR_METHODS {
@@ -625,9 +632,12 @@ pub fn suite_w(out: &mut Out, seed: u64, thorough: bool, filter: &[String], wide
 		let mut deck = if *name == "roc" { gen::Deck::new(&gen::CLASSES[2..]) } else { gen::Deck::values() };
 		let mut dr = rng.fork(id + 7919);
 		for &len in &lens {
-			for _k in 0..classes_per {
+			// short windows additionally always meet the small-integer alphabet (ties, values equal to a running average,
+			// every order pattern of the window): that pairing must not be left to the draw
+			let forced = if len <= 8 && *name != "roc" { 1 } else { 0 };
+			for k in 0..(classes_per + forced) {
 				let mut r = rng.fork(id);
-				let class = deck.draw(&mut dr);
+				let class = if k >= classes_per { "alphabet" } else { deck.draw(&mut dr) };
 				let n = steps(&mut r, len);
 				let mut xs = if *name == "roc" { gen::positive(&mut r, n, class) } else { gen::stream(&mut r, n, class) };
 				// usual API: constructed from the first element, sometimes preceded by extra copies,
